@@ -41,6 +41,9 @@ type C20Query struct {
 	SameAs int `json:"same_as,omitempty"`
 	// Pre: entries the caller writes into the shared variable map right before this step runs.
 	Pre map[string]any `json:"pre,omitempty"`
+	// Scale: Rows is expanded to 200-700 rows by this recipe before anything is computed (rows are still evaluated
+	// one after the other in source order, whatever the size of the table)
+	Scale *Scale `json:"scale,omitempty"`
 }
 
 type C20Case struct {
@@ -124,6 +127,9 @@ func genC20(t *rapid.T) any {
 			if c.Big {
 				q.Rows[r].(map[string]any)["b"] = rapid.SampledFrom([]float64{0, 1, 2, 3, 5, -1}).Draw(t, fmt.Sprintf("%s.r%d.b", ql, r))
 			}
+		}
+		if nr > 0 {
+			q.Scale = genScale(t, 30, ql+".scale")
 		}
 		switch rapid.IntRange(0, 3).Draw(t, ql+".where") {
 		case 0:
@@ -411,6 +417,20 @@ func (q *C20Query) sql() string {
 }
 
 func checkC20(c *C20Case) Result {
+	for _, q := range c.Queries {
+		if q.Scale != nil {
+			cc := *c
+			cc.Queries = append([]C20Query{}, c.Queries...)
+			for i := range cc.Queries {
+				if sc := cc.Queries[i].Scale; sc != nil {
+					cc.Queries[i].Rows, cc.Queries[i].Scale = sc.Expand(cc.Queries[i].Rows), nil
+				}
+			}
+			res := checkC20(&cc)
+			res.Labels = append(res.Labels, "large-table")
+			return res
+		}
+	}
 	res := Result{}
 	model := map[string]any{}
 	for k, v := range c.Init {
@@ -698,7 +718,7 @@ func init() {
 	Register(&Prop{
 		ID:    "C20",
 		Title: "SETVAR/GETVAR behave as per-key registers in evaluation order",
-		Rule: "rapid draws a history: an initial variable map (possibly preset) and 1-5 queries sharing that one map; each query has a table (0-5 rows), " +
+		Rule: "rapid draws a history: an initial variable map (possibly preset) and 1-5 queries sharing that one map; each query has a table (0-5 rows; about 2% of the tables expanded to 200-700 rows by a recipe), " +
 			"an optional WHERE on plain columns and 1-6 select items out of SETVAR(k, const | column | column+const | GETVAR(k') | GETVAR(k') op const | " +
 			"GETVAR(k')+column | NULL | CONCAT(GETVAR(k), column)), GETVAR(k) AS alias (incl. a key that is never set; a fifth of them inside a scalar subquery over dual) and plain columns; a quarter of the queries are wrapped in a derived table or a CTE (variables read and written inside the nested query), over keys k1..k3; a sixth are `<arm> UNION ALL <arm>` with flat or derived arms (left arm evaluated first); a quarter of the histories hold int64 values beyond 2^53 in a register (column b, key kb); histories of flat queries also construct all queries before the first runs, execute an earlier Query object again, and let the caller write into the map between queries. " +
 			"Oracle: a sequential register model evaluated row by row on the rows passing WHERE, item by item: every GETVAR column equals the model's " +
